@@ -5,6 +5,7 @@ import Asn1.Generated
 import Proofs.Parse
 import Proofs.Codec
 import Proofs.Mono
+import Proofs.KernelChunk
 
 namespace Asn1.C02
 
@@ -135,5 +136,30 @@ theorem two_accepting_decoders_same_value (t : Ty) (bs : Bytes) (r1 r2 : Val × 
     rw [h2] at this; exact (Except.ok.inj this).symm
   · have := (accepting_decoders_agree t bs).2.2 r1 h1
     rw [h2] at this; exact (Except.ok.inj this).symm
+
+/-! ### at the source level: the segmentation loop, translated from /repo on this run -/
+
+/-- `OctetStringEncoder.encodeValue` (ber/encoder.py; the loop is translated by gen/py2lean.py into `GenK.octetChunks`,
+    its `encodeFun` callback a function parameter): whatever the callback, no chunk size or a string that fits gives the
+    octets in primitive form, anything longer the callback's answers for the consecutive `maxChunkSize`-octet pieces, in
+    order, in constructed form -/
+theorem source_segmentation (f : Py.Tup → Py.M Py.Tup) (bs : Bytes) (n : Nat) :
+    GenK.octetChunks f (Kernels.bytesInts bs) (n : Int) =
+      if n = 0 ∨ bs.length ≤ n then .ok (Kernels.bytesInts bs, false, true)
+      else (Kernels.concatM f ((chunkBytes n bs.length bs).map Kernels.bytesInts)).map (fun r => (r, true, true)) :=
+  Kernels.octetChunks_kernel f bs n
+
+/-- with the translated header loop as the callback for one piece, the translated segmentation loop writes what the
+    encoder model - about which the round-trip theorems above are stated - writes for an octet or character string of
+    any length under any chunk size (CER: 1000) and any mode -/
+theorem source_segmentation_is_model (cfg : EncCfg) (o : EncOpts) (k : Nat) (bs : Bytes) :
+    GenK.octetChunks (Kernels.chunkFun true o.ifNotEmpty o.defMode) (Kernels.bytesInts bs) (o.maxChunk : Int) =
+      Kernels.liftEnc (encValue cfg o (.prim (.str k)) (.str bs)) :=
+  Kernels.octetChunks_is_model cfg o k bs
+
+/-- non-vacuity: five octets under a chunk size of two are three OCTET STRING pieces `04 02 .. ..`, `04 02 .. ..`,
+    `04 01 ..` in constructed form -/
+example : GenK.octetChunks (Kernels.chunkFun true false false) [1, 2, 3, 4, 5] 2 =
+    .ok ([4, 2, 1, 2, 4, 2, 3, 4, 4, 1, 5], true, true) := by rfl
 
 end Asn1.C02
